@@ -219,6 +219,7 @@ func (fc *FnCtx) Translate() (err error) {
 				fc.checkInvariant(li, st, phiVals, "inv-init", "entry")
 				hs := st.havockedSilently(li.writes)
 				li.hstate = hs
+				li.headCtr = fc.allocCtr
 				li.phiFresh = map[*ssa.Phi]Val{}
 				fc.cur = hs
 				for _, in := range b.Instrs {
@@ -285,7 +286,8 @@ func (fc *FnCtx) Translate() (err error) {
 	if fc.c != nil && !fc.probe {
 		for _, a := range append(append(append(append([]*AnchorClause{}, fc.c.Asserts...), fc.c.GhostUpd...), fc.c.Assumes...), fc.c.Interf...) {
 			_ = a
-			if !fc.anchorsHit[a] {
+			if !fc.anchorsHit[a] && !strings.HasSuffix(a.Anchor, "#*") {
+				// (a "#*" clause speaks about every such operation, including none)
 				var seen []string
 				for s := range fc.anchorsSeen {
 					seen = append(seen, s)
@@ -506,6 +508,10 @@ func (fc *FnCtx) instr(b *ssa.BasicBlock, idx int, in ssa.Instruction) {
 		fc.doSelect(x)
 	case *ssa.Range:
 		fc.setVal(x, fc.freshVal("range", x.Type()))
+		if isStringType(x.X.Type()) {
+			fc.cur = fc.cur.derive()
+			fc.cur.set(fc.rangePosName(x), bvSort(64), bvLit(0, 64))
+		}
 	case *ssa.Next:
 		fc.doNext(x)
 	case *ssa.SliceToArrayPointer, *ssa.MultiConvert:
@@ -997,12 +1003,47 @@ func (fc *FnCtx) loopEnv(li *loopInfo, st *State, phiVals map[*ssa.Phi]Val) *Env
 			}
 		}
 		val := fc.operand(v)
+		if isAddr && isArrayPtr(val.T) {
+			return val, true
+		}
 		if isAddr {
 			return fc.loadPtr(st, val), true
 		}
 		return val, true
 	}
+	// rangepos: byte position of the range-over-string iteration that drives this loop
+	if name, s, ok := fc.stringRangeOf(li); ok {
+		env.vars["rangepos"] = Val{T: types.Typ[types.Int], L: []string{st.get(name, bvSort(64))}}
+		_ = s
+	}
 	return env
+}
+
+// isArrayPtr: *[N]T
+func isArrayPtr(t types.Type) bool {
+	p, ok := t.Underlying().(*types.Pointer)
+	if !ok {
+		return false
+	}
+	_, ok = p.Elem().Underlying().(*types.Array)
+	return ok
+}
+
+// rangePosName is the state variable holding the byte position of a range-over-string iterator.
+func (fc *FnCtx) rangePosName(r *ssa.Range) string {
+	return "R|pos|" + fc.posOf(r.Pos()) + "|" + r.Name()
+}
+
+// stringRangeOf finds the range-over-string iterator advanced in the header of loop li.
+func (fc *FnCtx) stringRangeOf(li *loopInfo) (string, *ssa.Range, bool) {
+	for _, in := range li.header.Instrs {
+		if nx, ok := in.(*ssa.Next); ok && nx.IsString {
+			if r, ok := nx.Iter.(*ssa.Range); ok {
+				return fc.rangePosName(r), r, true
+			}
+		}
+	}
+	return "", nil, false
 }
 
 // autoInvariants: the hidden index of a range-over-slice loop never drops below -1 (checked like any invariant).
@@ -1031,6 +1072,7 @@ func (fc *FnCtx) checkInvariant(li *loopInfo, st *State, phiVals map[*ssa.Phi]Va
 	}
 	invs := fc.c.LoopInv[li.ord]
 	env := fc.loopEnv(li, st, phiVals)
+	env.olderLimit = app("bvadd", "allocbase", bvLit(uint64(fc.allocCtr+1)*16, 64))
 	if g := fc.bytesFrameFormula(fc.contractEnv(st, fc.entry), st); g != "" {
 		// automatic invariant of functions whose modifies clause names byte arrays individually
 		fc.hasQuant = true
@@ -1050,6 +1092,7 @@ func (fc *FnCtx) assumeInvariant(li *loopInfo, st *State) {
 		return
 	}
 	env := fc.loopEnv(li, st, li.phiFresh)
+	env.olderLimit = app("bvadd", "allocbase", bvLit(uint64(li.headCtr+1)*16, 64))
 	if g := fc.bytesFrameFormula(fc.contractEnv(st, fc.entry), st); g != "" {
 		fc.hasQuant = true
 		st.assume(g)
